@@ -19,7 +19,10 @@
 //                                                            objective's cost comparison until the better one (B) is through;
 //                                                            then one un-choreographed run, <free> reports per instance (no
 //                                                            handshake, so that TSan sees the accesses as they are)
-//   cfsamplers <instances> <budget> <own_validator 0|1>      real CForest with RRT* instances; the user's sampler allocator holds every
+//   cfsamplers <instances> <budget> <own_validator 0|1> [<monitor 0|1>]
+//                                                            monitor=1: a thread polls CForest's planner progress properties (best cost,
+//                                                            shared paths, shared states) during solve, as tools::Benchmark does
+//                                                            real CForest with RRT* instances; the user's sampler allocator holds every
 //                                                            instance but the first inside its (lazy, in-solve) sampler allocation
 //                                                            until the first one has been planning for a while; own_validator=1:
 //                                                            a user motion validator without shared counters
@@ -1121,33 +1124,39 @@ namespace
         unsigned instances = needN(t, i);
         unsigned long budget = needN(t, i);
         unsigned ownValidator = needN(t, i);
+        unsigned monitor = i < t.size() ? needN(t, i) : 0;
         auto space = std::make_shared<StallSpace>(2);
         space->setBounds(0, 1);
         std::atomic<unsigned long> validity{0};
         std::atomic<unsigned> held{0};
         const std::thread::id mainId = std::this_thread::get_id();
-        std::mutex firstMutex;
-        std::thread::id firstWorker;
-        bool haveFirst = false;
+        std::mutex seenMutex;
+        std::vector<std::thread::id> seenWorkers;  // worker threads in the order of their first sampler allocation
         space->onAlloc = [&]() {
             const auto me = std::this_thread::get_id();
             if (me != mainId)
             {
-                bool first;
+                size_t index;
+                bool firstCall = false;
                 {
-                    std::lock_guard<std::mutex> g(firstMutex);
-                    if (!haveFirst)
+                    std::lock_guard<std::mutex> g(seenMutex);
+                    auto it = std::find(seenWorkers.begin(), seenWorkers.end(), me);
+                    if (it == seenWorkers.end())
                     {
-                        haveFirst = true;
-                        firstWorker = me;
+                        seenWorkers.push_back(me);
+                        it = seenWorkers.end() - 1;
+                        firstCall = true;
                     }
-                    first = firstWorker == me;
+                    index = it - seenWorkers.begin();
                 }
-                if (!first)
+                // only the LAST instance to arrive is held (at its first allocation): the others have registered their samplers,
+                // so the sharing instance's walk over samplers_ has other samplers to visit while this one is still outside
+                if (firstCall && index + 1 == instances)
                 {
                     ++held;
                     auto until = std::chrono::steady_clock::now() + std::chrono::seconds(20);  // hang guard only
-                    while (validity.load(std::memory_order_relaxed) < 6000 && std::chrono::steady_clock::now() < until)
+                    while (validity.load(std::memory_order_relaxed) < 6000 * (unsigned long)(instances - 1) &&
+                           std::chrono::steady_clock::now() < until)
                         std::this_thread::yield();
                 }
             }
@@ -1177,8 +1186,51 @@ namespace
         counter->fireAt = budget;
         ob::PlannerTerminationCondition ptc(
             [counter] { return counter->evals.fetch_add(1, std::memory_order_relaxed) + 1 > counter->fireAt; });
+        // the progress properties are public, registered with addPlannerProgressProperty, and exist to be polled from another
+        // thread while the planner runs (tools::Benchmark's collector thread does exactly this)
+        std::atomic<bool> solving{true};
+        unsigned long polls = 0, costUp = 0, countDown = 0;
+        std::thread mon;
+        if (monitor)
+            mon = std::thread([&] {
+                const auto props = cf->getPlannerProgressProperties();
+                double lastCost = std::numeric_limits<double>::infinity();
+                long lastPaths = 0, lastStates = 0;
+                while (solving.load(std::memory_order_relaxed))
+                {
+                    for (const auto &p : props)
+                    {
+                        const std::string v = p.second();
+                        if (p.first.rfind("best cost", 0) == 0)
+                        {
+                            double c = std::atof(v.c_str());
+                            if (c == c)  // not NaN (the value before solve() initialises it)
+                            {
+                                if (c > lastCost + 1e-12)
+                                    ++costUp;
+                                lastCost = std::min(lastCost, c);
+                            }
+                        }
+                        else
+                        {
+                            long n = std::atol(v.c_str());
+                            long &last = p.first.rfind("shared paths", 0) == 0 ? lastPaths : lastStates;
+                            if (n < last)
+                                ++countDown;
+                            last = std::max(last, n);
+                        }
+                    }
+                    ++polls;
+                    std::this_thread::yield();
+                }
+            });
         ob::PlannerStatus st = cf->solve(ptc);
+        solving.store(false, std::memory_order_relaxed);
+        if (mon.joinable())
+            mon.join();
         std::string out = "cfsamplers instances=" + std::to_string(instances) + " own_validator=" + std::to_string(ownValidator) +
+                          " monitor=" + std::to_string(monitor) + " polls_nonzero=" + std::to_string(polls > 0) +
+                          " cost_went_up=" + std::to_string(costUp) + " count_went_down=" + std::to_string(countDown) +
                           " status=" + vp::statusName(st) + " held=" + std::to_string(held.load()) +
                           " paths_shared=" + cf->getNumPathsShared() + " states_shared=" + cf->getNumStatesShared() +
                           " nsol=" + std::to_string(pdef->getSolutionCount());
@@ -1448,7 +1500,7 @@ namespace
                           " checked=" + std::to_string(si->getMotionValidator()->getCheckedMotionCount()) +
                           " validity_calls=" + std::to_string(svc->calls()) + " nsol=" + std::to_string(pdef->getSolutionCount());
         if (auto *cf = dynamic_cast<og::CForest *>(pl.get()))
-            out += " paths_shared=" + cf->getNumPathsShared() + " states_shared=" + cf->getNumStatesShared();
+            out += " shared_paths=" + cf->getNumPathsShared() + " shared_states=" + cf->getNumStatesShared();  // no " path" in a key
         ob::PlannerSolution best(nullptr);
         if (pdef->getSolution(best) && best.path_)
         {
